@@ -168,10 +168,12 @@ func main() {
 				}
 				t := txs[ti]
 				for _, present := range []bool{false, true} {
-					for _, price := range prices {
-						for hi, mkBH := range []func() chain.BalanceHandler{nil, func() chain.BalanceHandler { return &mstorage.BalanceHandler{} }} {
-							for bi := 0; bi < 4; bi++ { // balance: fee-1, fee, fee+1, large
-								runCase(r, t, present, price, hi, mkBH, bi, &evals, &nontriv, &outcomes)
+					for prior := range priorMenu {
+						for _, price := range prices {
+							for hi, mkBH := range []func() chain.BalanceHandler{nil, func() chain.BalanceHandler { return &mstorage.BalanceHandler{} }} {
+								for bi := 0; bi < 4; bi++ { // balance: fee-1, fee, fee+1, large
+									runCase(r, t, present, prior, price, hi, mkBH, bi, &evals, &nontriv, &outcomes)
+								}
 							}
 						}
 					}
@@ -190,7 +192,7 @@ func main() {
 	r.Cov["distinct_outcomes"] = no
 	r.Cov["transactions"] = len(txs)
 	r.Cov["not_includable_cases"] = int(notIncludable.Load())
-	r.Cov["rule"] = "every transaction of 1-2 actions with scripts of 0-2 steps (8-step menu: get/put/del/append/fail/undeclared put over 2 keys) and of 3 (thorough 4) actions with 0-1 step, x base {empty, populated} x unit price {0,1,100} x balance handler {prefix, MorpheusVM delete-at-zero} x sponsor balance {fee-1, fee, fee+1, large}; non-trivial = transactions with at least one state-changing step that were executed (not rejected for balance)"
+	r.Cov["rule"] = "every transaction of 1-2 actions with scripts of 0-2 steps (8-step menu: get/put/del/append/fail/undeclared put over 2 keys) and of 3 (thorough 4) actions with 0-1 step, x block-start state {empty, populated} x changes already committed by an earlier transaction of the block {none, both keys deleted, both written (k1 to the value Put writes), k1 rewritten + k2 deleted} x unit price {0,1,100} x balance handler {prefix, MorpheusVM delete-at-zero} x sponsor balance {fee-1, fee, fee+1, large}; non-trivial = transactions with at least one state-changing step that were executed (not rejected for balance)"
 	r.Assumptions = []string{"keys are declared with all permissions (permission lattice is C05)", "the expected fee is recomputed from rules and declared keys in math/big"}
 	r.Finish()
 }
@@ -217,7 +219,16 @@ func expectedUnits(e *rig.Env, tx *chain.Transaction, nActions int, declared int
 
 var notIncludable atomic.Int64
 
-func runCase(r *evid.Run, t txSpec, present bool, price uint64, hi int, mkBH func() chain.BalanceHandler, bi int, evals, nontriv *atomic.Int64, outcomes *sync.Map) {
+// priorMenu: what an earlier transaction of the same block already committed to the block-level
+// state (nil value = deleted). Applied on top of the block-start storage.
+var priorMenu = []map[string][]byte{
+	nil,
+	{k1: nil, k2: nil},
+	{k1: []byte("a"), k2: []byte("b")},
+	{k1: []byte("z"), k2: nil},
+}
+
+func runCase(r *evid.Run, t txSpec, present bool, prior int, price uint64, hi int, mkBH func() chain.BalanceHandler, bi int, evals, nontriv *atomic.Int64, outcomes *sync.Map) {
 	rules := rig.DefaultRules()
 	rules.MinUnitPrice = fees.Dimensions{price, price, price, price, price}
 	var bh chain.BalanceHandler
@@ -251,8 +262,9 @@ func runCase(r *evid.Run, t txSpec, present bool, price uint64, hi int, mkBH fun
 	base := map[string]string{}
 	store := memStore{}
 	if present {
-		base[k1], base[k2] = "1", "2"
-		store[k1], store[k2] = []byte("1"), []byte("2")
+		// k1 starts with the very value Put(k1) writes, so "write the block-start value back" occurs
+		base[k1], base[k2] = "a", "2"
+		store[k1], store[k2] = []byte("a"), []byte("2")
 	}
 	env := probe
 	bstore := &mutStore{m: store}
@@ -270,10 +282,31 @@ func runCase(r *evid.Run, t txSpec, present bool, price uint64, hi int, mkBH fun
 		evid.Infra("state keys: %v", err)
 	}
 	ts := tstate.New(4)
+	if pm := priorMenu[prior]; pm != nil {
+		pv := ts.NewView(state.Keys{k1: state.All, k2: state.All}, state.ImmutableStorage(store), 2)
+		for _, k := range []string{k1, k2} {
+			v, ok := pm[k]
+			if !ok {
+				continue
+			}
+			var perr error
+			if v == nil {
+				perr = pv.Remove(rig.Ctx, []byte(k))
+				delete(base, k)
+			} else {
+				perr = pv.Insert(rig.Ctx, []byte(k), v)
+				base[k] = string(v)
+			}
+			if perr != nil {
+				evid.Infra("prior transaction: %v", perr)
+			}
+		}
+		pv.Commit()
+	}
 	tsv := ts.NewView(sk, state.ImmutableStorage(store), len(sk))
-	rep := map[string]any{"tx": t.String(), "basePopulated": present, "unitPrice": price, "handler": hi, "balance": bal, "fee": fee}
+	rep := map[string]any{"tx": t.String(), "basePopulated": present, "earlierInBlock": prior, "unitPrice": price, "handler": hi, "balance": bal, "fee": fee}
 	viol := func(key, what string) {
-		r.Violation("C03:"+key, what+fmt.Sprintf(" [tx %s base=%v price=%d handler=%d balance=%d fee=%d]", t.String(), present, price, hi, bal, fee), rep)
+		r.Violation("C03:"+key, what+fmt.Sprintf(" [tx %s base=%v earlier-in-block=%d price=%d handler=%d balance=%d fee=%d]", t.String(), present, prior, price, hi, bal, fee), rep)
 	}
 	gotUnits, err := tx.Units(env.BH, env.Rules)
 	if err != nil || gotUnits != units {
@@ -347,6 +380,20 @@ func runCase(r *evid.Run, t txSpec, present bool, price uint64, hi int, mkBH fun
 	}
 	// committing the view publishes the fee charge and exactly the surviving effects
 	tsv.Commit()
+	// ... and the block-level state a later transaction reads holds exactly the expected values
+	after := ts.NewView(state.Keys{k1: state.All, k2: state.All, kU: state.All}, state.ImmutableStorage(store), 3)
+	for _, k := range []string{k1, k2, kU} {
+		v, gerr := after.GetValue(rig.Ctx, []byte(k))
+		want, ok := wantState[k]
+		if ok != (gerr == nil) || (ok && string(v) != want) {
+			kind := "committed-effects-lost"
+			if !wantOK {
+				kind = "failed-tx-effects-committed"
+			}
+			viol(kind, fmt.Sprintf("key %s read by a later transaction of the block = %q (err %v), expected %q present=%v", rig.KeyName(k), v, gerr, want, ok))
+			return
+		}
+	}
 	for k := range ts.ChangedKeys() {
 		if k != k1 && k != k2 {
 			if _, isSponsor := env.BH.SponsorStateKeys(rig.Addr(0))[k]; !isSponsor {
